@@ -13,6 +13,17 @@ mode `hist`   : stdin JSON lines, each a history {"id", "ops":[...]} run against
                 (render job, makezip job) attributes at the start of the request and after every injected op.
                 Ops whose k exceeds the number of qinfo calls the request made are applied right after the request
                 (so an interleaved history has the same effect on the queue as the plain one).
+                WORKER CONNECTIONS: the queue server has one QPlugin handler object per client connection; a handler
+                remembers the jobs pulled through it (running_jobs) and its shutdown() -- run by the RPC server when that
+                connection closes -- reschedules those that are not finished.  Connection 0 is the web server's (nserve:
+                do_render / render_status / kill); ["pull", channel, k] pulls through connection k (default 0),
+                ["finish", jid, result, error, k] finishes through connection k (default 0), ["disconnect", k] closes
+                connection k (QPlugin.shutdown of its handler) and opens a fresh one in its place (the worker
+                reconnects).  A queue-server restart closes every connection without a shutdown (the process is gone).
+                JUDGED JOB: "live" is the state of the job the id stands for -- the LATEST incarnation registered under
+                the id (job objects are told apart by identity; a new incarnation is created by qadd on an absent id or
+                on a killed one), absent once that incarnation was seen removed from the queue's table.  When the
+                queue's id->job table serves another (earlier) incarnation instead, the step carries it under "stale".
 mode `writers`: the writer table the running code has.
 mode `unicode`: exhaustive pass over all 0x110000 code points: str.isspace table, the NFKD hypothesis of
                 the Coq theorem, and (argv[2] = step) get_content_disposition on every step-th code point.
@@ -91,13 +102,13 @@ class WorkqProxy:
     passes arguments/results through JSON like the RPC layer does."""
 
     def __init__(self, plugin):
-        self.plugin = plugin
+        self.plugin = plugin          # callable: the handler of the web server's connection (re-created on restart)
 
     def qinfo(self, jobid):
-        return json.loads(json.dumps(self.plugin.rpc_qinfo(jobid)))
+        return json.loads(json.dumps(self.plugin().rpc_qinfo(jobid)))
 
     def qadd(self, **kw):
-        return self.plugin.rpc_qadd(**json.loads(json.dumps(kw)))
+        return self.plugin().rpc_qadd(**json.loads(json.dumps(kw)))
 
 
 class InterleavingProxy:
@@ -132,8 +143,14 @@ def run_hist():
         class Handler(qserve.QPlugin):
             workq = q[0]
 
-        plugin = Handler()
-        proxy = WorkqProxy(plugin)
+        conns = {0: Handler()}    # connection index -> its handler object; 0 = the web server's connection
+
+        def conn(k):
+            if k not in conns:
+                conns[k] = Handler()
+            return conns[k]
+
+        proxy = WorkqProxy(lambda: conn(0))
         colls = h["collections"]
         writers = h["writers"]
         tracked = []
@@ -142,10 +159,41 @@ def run_hist():
             for w in writers:
                 tracked.append("%s:render-%s" % (c, w))
 
-        def live_of(jid):
-            j = q[0].id2job.get(jid)
+        def attrs(j):
             return None if j is None else json.loads(json.dumps(
                 {"done": j.done, "error": j.error, "info": j.info, "result": j.result}))
+
+        # incarnations of every tracked id: the job objects seen registered under it, in order of first appearance
+        # (strong references: identities stay distinct), and whether the latest one was seen removed since
+        incarn = {}
+        gone = {}
+
+        def observe():
+            for jid in tracked:
+                cur = q[0].id2job.get(jid)
+                lst = incarn.setdefault(jid, [])
+                if cur is None:
+                    if lst:
+                        gone[jid] = True
+                elif not any(cur is o for o in lst):
+                    lst.append(cur)
+                    gone[jid] = False
+
+        def real_job(jid):
+            """The job the id stands for: its latest incarnation while registered (by whatever table entry)."""
+            cur = q[0].id2job.get(jid)
+            lst = incarn.get(jid) or []
+            if cur is None or not lst or gone.get(jid):
+                return None
+            return lst[-1]
+
+        def live_of(jid):
+            observe()
+            return attrs(real_job(jid))
+
+        def stale_of(jid):
+            cur = q[0].id2job.get(jid)
+            return None if cur is None or cur is real_job(jid) else attrs(cur)
 
         def apply_plain(op, applied):
             """One queue op of another client; appends the model-level ops that were issued to `applied`
@@ -164,35 +212,38 @@ def run_hist():
                 elif k == "push":
                     _, jid, channel, timeout, ttl = op
                     applied.append(["J", now[0], jid, ["P", timeout if timeout is not None else 120, ttl]])
-                    plugin.rpc_qadd(channel=channel, jobid=jid, timeout=timeout, ttl=ttl)
+                    conn(0).rpc_qadd(channel=channel, jobid=jid, timeout=timeout, ttl=ttl)
                 elif k == "pull":
-                    _, channel = op
+                    channel = op[1]
                     cq = wq.channel2q.get(channel, [])
                     if any(not j.done for j in cq):     # never block
-                        got = plugin.rpc_qpull([channel])
+                        got = conn(op[2] if len(op) > 2 else 0).rpc_qpull([channel])
                         applied.append(["J", now[0], got["jobid"], ["U"]])
+                elif k == "disconnect":                 # the connection closes: rpcserver calls the handler's shutdown();
+                    conn(op[1]).shutdown()              # rescheduling an unfinished job changes no snapshot (no model op)
+                    conns[op[1]] = Handler()
                 elif k == "setinfo":
                     _, jid, info = op
                     applied.append(["J", now[0], jid, ["I", info]])
-                    plugin.rpc_qsetinfo(jid, info)
+                    conn(0).rpc_qsetinfo(jid, info)
                 elif k == "finish":
-                    _, jid, result, error = op
+                    _, jid, result, error = op[:4]
                     applied.append(["J", now[0], jid, ["F", result, error]])
-                    plugin.rpc_qfinish(jid, result=result, error=error)
+                    conn(op[4] if len(op) > 4 else 0).rpc_qfinish(jid, result=result, error=error)
                 elif k == "kill":
                     _, jid = op
                     applied.append(["J", now[0], jid, ["K"]])
-                    plugin.rpc_qkill([jid])
+                    conn(0).rpc_qkill([jid])
                 elif k == "dropmark":
                     _, jid = op
                     applied.append(["J", now[0], jid, ["M"]])
-                    plugin.rpc_qdrop([jid])
+                    conn(0).rpc_qdrop([jid])
                 elif k == "wait":
                     _, jid = op
                     j = wq.id2job.get(jid)
                     if j is None or j.done:             # never block
                         applied.append(["J", now[0], jid, ["W"]])
-                        plugin.rpc_qwait([jid])
+                        conn(0).rpc_qwait([jid])
                 elif k == "tick":                       # clock advances, handletimeouts runs
                     now[0] += op[1]
                     applied.append(["T", now[0]])
@@ -204,11 +255,16 @@ def run_hist():
                 elif k == "restart":                    # the queue server is restarted without a data dir: every job is
                     q[0] = jobs.workq()                 # gone, the nserve process (and whatever it remembers) lives on
                     Handler.workq = q[0]
+                    conns.clear()                       # every connection died with the server process (no shutdown())
+                    incarn.clear()
+                    gone.clear()
                     applied.append(["R"])
                 else:
                     raise RuntimeError("unknown op %r" % (op,))
             except KeyError:
+                observe()
                 return "KeyError"
+            observe()
             return None
 
         steps = []
@@ -250,6 +306,9 @@ def run_hist():
                     app.qserve = proxy
                     status["%s|%s" % (c, w)] = call_status(app, c, w)
             st = {"op": op, "applied": applied, "raised": raised, "snaps": snaps, "live": live, "status": status}
+            stale = {jid: stale_of(jid) for jid in tracked if stale_of(jid) is not None}
+            if stale:
+                st["stale"] = stale
             if inter is not None:
                 st["inter"] = inter
             steps.append(st)
